@@ -9,6 +9,7 @@ import (
 	"golang.org/x/tools/go/ssa"
 
 	"wvsa/internal/facts"
+	"wvsa/internal/load"
 )
 
 const (
@@ -115,6 +116,59 @@ func c19(c *Ctx) {
 	}
 	R.Floor("C19.lockset", na, 8)
 
+	c19indexAligned(c, p, "C19.index-aligned")
+
+	// ---- dedup
+	apply := must(p.Method(pkgXDedup, "Deduplicator", "Apply"), "Deduplicator.Apply")
+	ns := 0
+	eachInstr(apply, func(i ssa.Instruction) {
+		cl, ok := i.(*ssa.Call)
+		if !ok || !cl.Call.IsInvoke() || cl.Call.Method.Name() != "Set" {
+			return
+		}
+		ns++
+		fs := facts.Atoms(facts.At(cl, nil))
+		ok2 := false
+		for _, a := range fs {
+			if a == "dyn:fn() == nil" {
+				ok2 = true
+			}
+		}
+		R.Check("C19.dedup", R.Key("C19.dedup", shortFn(apply), "cache.Set"), c.rel(p.Pos(cl.Pos())), "a key is marked as seen only after the callback succeeded (a failed hand-off can be retried by a later copy)", ok2, strings.Join(fs, ";"))
+	})
+	R.Floor("C19.dedup", ns, 1)
+	// Push calls Apply with the VAA's message id as key
+	okKey := false
+	eachInstr(push, func(i ssa.Instruction) {
+		if cl, ok := i.(*ssa.Call); ok && cl.Call.StaticCallee() == apply {
+			okKey = strings.HasPrefix(facts.Term(cl.Call.Args[2]), "(*N/vaa.VAA).MessageID(v)")
+		}
+	})
+	R.Check("C19.dedup", "C19.dedup/key", c.rel(p.Pos(push.Pos())), "the dedup key is the VAA's message id", okKey, "key changed")
+}
+
+type ssaField struct {
+	v    *types.Var
+	name string
+}
+
+func c19vals(v ssa.Value) map[string]string {
+	out := map[string]string{}
+	if al, ok := v.(*ssa.Alloc); ok {
+		vals, _ := allocStores(al)
+		for k, x := range vals {
+			out[k] = termOrNil(x)
+		}
+	}
+	return out
+}
+
+// c19indexAligned: position i of the explorer's guardian-set list holds the set with index i (shared
+// by C19 — the set a VAA is verified against — and C07 — the n the explorer's threshold is taken from).
+func c19indexAligned(c *Ctx, p *load.Program, rule string) {
+	R := c.R
+	cur := must(p.FieldOf(pkgXGS, "GuardianSets", "currentGuardianSetIndex"), "GuardianSets.currentGuardianSetIndex")
+	lst := must(p.FieldOf(pkgXGS, "GuardianSets", "guardianSetLists"), "GuardianSets.guardianSetLists")
 	// ---- index-aligned
 	upd := must(p.Method(pkgXGS, "GuardianSets", "updateGuardianSets"), "updateGuardianSets")
 	for _, fld := range []*ssaField{{cur, "currentGuardianSetIndex"}, {lst, "guardianSetLists"}} {
@@ -131,9 +185,9 @@ func c19(c *Ctx) {
 				ap := asCall(st.Val, "append")
 				ok = ok && ap != nil && loadedField(ap.Call.Args[0]) == lst
 			}
-			R.Check("C19.index-aligned", R.Key("C19.index-aligned", shortFn(s.Fn), "store:"+fld.name), c.sitePos(p, s), fld.name+" is written only by updateGuardianSets (the list only by appending to itself)", ok, "value = "+facts.Term(st.Val))
+			R.Check(rule, R.Key(rule, shortFn(s.Fn), "store:"+fld.name), c.sitePos(p, s), fld.name+" is written only by updateGuardianSets (the list only by appending to itself)", ok, "value = "+facts.Term(st.Val))
 		}
-		R.Floor("C19.index-aligned."+fld.name, nst, 1)
+		R.Floor(rule+"."+fld.name, nst, 1)
 	}
 	// the appended tail starts at the batch element whose Index is currentGuardianSetIndex+1
 	nap := 0
@@ -211,9 +265,9 @@ func c19(c *Ctx) {
 				}
 			}
 		}
-		R.Check("C19.index-aligned", R.Key("C19.index-aligned", shortFn(upd), "append-start"), c.sitePos(p, s), "the tail appended to the list starts at the batch element whose Index is currentGuardianSetIndex+1 (so list position i keeps holding the set with index i when a batch overlaps what is already known)", ok, why)
+		R.Check(rule, R.Key(rule, shortFn(upd), "append-start"), c.sitePos(p, s), "the tail appended to the list starts at the batch element whose Index is currentGuardianSetIndex+1 (so list position i keeps holding the set with index i when a batch overlaps what is already known)", ok, why)
 	}
-	R.Floor("C19.index-aligned.append", nap, 1)
+	R.Floor(rule+".append", nap, 1)
 	// every returned set is list[index] for the index asked
 	nret := 0
 	for _, name := range []string{"GetGuardianSet", "lookup"} {
@@ -228,10 +282,10 @@ func c19(c *Ctx) {
 			}
 			nret++
 			_, isParam := ia.Index.(*ssa.Parameter)
-			R.Check("C19.index-aligned", R.Key("C19.index-aligned", shortFn(fn), "index:guardianSetLists"), c.rel(p.Pos(ia.Pos())), "the set returned for index i is element i of the list", isParam && ia.Index.(*ssa.Parameter).Name() == "index", "index expression = "+facts.Term(ia.Index))
+			R.Check(rule, R.Key(rule, shortFn(fn), "index:guardianSetLists"), c.rel(p.Pos(ia.Pos())), "the set returned for index i is element i of the list", isParam && ia.Index.(*ssa.Parameter).Name() == "index", "index expression = "+facts.Term(ia.Index))
 		})
 	}
-	R.Floor("C19.index-aligned.lookups", nret, 1)
+	R.Floor(rule+".lookups", nret, 1)
 	// the batch fetched from the chain is assembled in index order: every guardian set built in
 	// the explorer's guardiansets package is created by the function that walks the indices — not
 	// by goroutines that append whenever their answer arrives (updateGuardianSets and
@@ -262,10 +316,10 @@ func c19(c *Ctx) {
 					}
 				})
 			}
-			R.Check("C19.index-aligned", R.Key("C19.index-aligned", shortFn(f), "batch-built-in-order"), c.rel(p.Pos(al.Pos())), "guardian sets fetched from the chain are collected by the loop over the indices itself", spawned == "", "the set is built in a goroutine started at "+spawned+": the batch is in completion order, not index order")
+			R.Check(rule, R.Key(rule, shortFn(f), "batch-built-in-order"), c.rel(p.Pos(al.Pos())), "guardian sets fetched from the chain are collected by the loop over the indices itself", spawned == "", "the set is built in a goroutine started at "+spawned+": the batch is in completion order, not index order")
 		})
 	}
-	R.Floor("C19.index-aligned.chain-sets", ngs, 1)
+	R.Floor(rule+".chain-sets", ngs, 1)
 	// … and GetGuardianSet hands out nothing but the result of lookup(index) for the index it was
 	// asked for (the "current" set is the requested one only until another update is appended)
 	if ggs := p.Method(pkgXGS, "GuardianSets", "GetGuardianSet"); ggs != nil {
@@ -293,52 +347,9 @@ func c19(c *Ctx) {
 					good = false
 				}
 			}
-			R.Check("C19.index-aligned", R.Key("C19.index-aligned", shortFn(ggs), "returns-lookup"), c.rel(p.Pos(instrPos(r))), "GetGuardianSet(index) returns the list element looked up for that index", good && nl > 0, "returned value = "+facts.Term(returnValues(r)[0]))
+			R.Check(rule, R.Key(rule, shortFn(ggs), "returns-lookup"), c.rel(p.Pos(instrPos(r))), "GetGuardianSet(index) returns the list element looked up for that index", good && nl > 0, "returned value = "+facts.Term(returnValues(r)[0]))
 		}
-		R.Floor("C19.index-aligned.returns", nacc, 1)
+		R.Floor(rule+".returns", nacc, 1)
 	}
 
-	// ---- dedup
-	apply := must(p.Method(pkgXDedup, "Deduplicator", "Apply"), "Deduplicator.Apply")
-	ns := 0
-	eachInstr(apply, func(i ssa.Instruction) {
-		cl, ok := i.(*ssa.Call)
-		if !ok || !cl.Call.IsInvoke() || cl.Call.Method.Name() != "Set" {
-			return
-		}
-		ns++
-		fs := facts.Atoms(facts.At(cl, nil))
-		ok2 := false
-		for _, a := range fs {
-			if a == "dyn:fn() == nil" {
-				ok2 = true
-			}
-		}
-		R.Check("C19.dedup", R.Key("C19.dedup", shortFn(apply), "cache.Set"), c.rel(p.Pos(cl.Pos())), "a key is marked as seen only after the callback succeeded (a failed hand-off can be retried by a later copy)", ok2, strings.Join(fs, ";"))
-	})
-	R.Floor("C19.dedup", ns, 1)
-	// Push calls Apply with the VAA's message id as key
-	okKey := false
-	eachInstr(push, func(i ssa.Instruction) {
-		if cl, ok := i.(*ssa.Call); ok && cl.Call.StaticCallee() == apply {
-			okKey = strings.HasPrefix(facts.Term(cl.Call.Args[2]), "(*N/vaa.VAA).MessageID(v)")
-		}
-	})
-	R.Check("C19.dedup", "C19.dedup/key", c.rel(p.Pos(push.Pos())), "the dedup key is the VAA's message id", okKey, "key changed")
-}
-
-type ssaField struct {
-	v    *types.Var
-	name string
-}
-
-func c19vals(v ssa.Value) map[string]string {
-	out := map[string]string{}
-	if al, ok := v.(*ssa.Alloc); ok {
-		vals, _ := allocStores(al)
-		for k, x := range vals {
-			out[k] = termOrNil(x)
-		}
-	}
-	return out
 }
